@@ -176,7 +176,7 @@ func signStream(g *vlib.Rng) {
 	runSign(&SignCase{Tx: oneInTx(), Idx: 2, Ht: 1, Key: key})
 	runSign(&SignCase{Tx: oneInTx(), Idx: 2, Ht: 0x81, Witness: true, Key: key})
 	hts := []byte{1, 2, 3, 0x81, 0x82, 0x83}
-	for i := 0; i < r.N(40, 1500); i++ {
+	for i := 0; i < r.N(40, 600); i++ {
 		c := genTxShape(g, false)
 		for len(c.Ins) == 0 || len(c.Ins) > 8 || len(c.Outs) > 8 {
 			c = genTxShape(g, false)
